@@ -8,10 +8,11 @@ from common import freephil, enc, obj_j, call_j, attr_j, line_of
 def gen_case(rng, **kw):
     """(tree, text, features) for a random abstract tree under a random layout"""
     tg = layout.TreeGen(rng, depth=rng.choice([0, 1, 2, 3]), attrs=kw.get("attrs", True),
-                        multiline=kw.get("multiline", True), experts=kw.get("experts", False))
+                        multiline=kw.get("multiline", True), experts=kw.get("experts", False),
+                        exotic=kw.get("exotic", 0.0))
     tree = tg.tree()
     r = layout.Renderer(rng, layout=kw.get("layout", rng.choice([0.0, 0.5, 1.0, 1.0])),
-                        comment_quotes=kw.get("comment_quotes", False), off_regions=kw.get("off_regions", True))
+                        comment_quotes=kw.get("comment_quotes", False), off_regions=kw.get("off_regions", True), exotic=kw.get("exotic", 0.0))
     text = r.render(tree)
     return tree, text, sorted(r.features)
 
